@@ -1097,3 +1097,260 @@ def f13(ctx):
                                     'tree_structure(<second argument>).num_leaves times' if not ok else
                               'the helper is not mapped over (prefix_tree, full_tree) in this order'),
                   mod.loc(fn))
+
+
+A6_MODULES = ('optree.ops', 'optree.registry', 'optree.utils', 'optree.functools', 'optree.dataclasses')
+
+
+@rule('A6', floor=1, title='a caller\'s mapping is indexed only with keys known to be in it')
+def a6(ctx):
+    """`d[k]` on a user mapping is not a pure read: a defaultdict answers a missing key by inserting
+    `default_factory()`.  Every subscript read with a computed key on a non-fresh object in the
+    Python package must be reachable only after a key-set comparison has excluded missing keys
+    (the keys iterated over are compared, as a set, with another key set and the unequal outcome
+    cannot reach the read)."""
+    pkg = ctx.py()
+    sites = 0
+    for mname in A6_MODULES:
+        mod = pkg.mod(mname)
+        for q, fn in sorted(mod.funcs.items()):
+            subs = []
+            for n in walk(fn):
+                if isinstance(n, ast.Subscript) and isinstance(n.ctx, ast.Load) and \
+                        isinstance(n.value, ast.Name) and isinstance(n.slice, ast.Name):
+                    subs.append(n)
+            if not subs:
+                continue
+            # locals bound to something fresh in this function (a literal, a comprehension, a
+            # constructor call of a builtin container) are not the caller's
+            fresh = set()
+            sets = {}          # name -> source name of `name = set(<source>)`
+            for n in walk(fn):
+                if isinstance(n, ast.Assign) and len(n.targets) == 1 and isinstance(n.targets[0], ast.Name):
+                    v = n.value
+                    if isinstance(v, (ast.Dict, ast.List, ast.ListComp, ast.DictComp, ast.Tuple)):
+                        fresh.add(n.targets[0].id)
+                    if isinstance(v, ast.Call) and call_name(v) in ('set', 'frozenset') and len(v.args) == 1 and \
+                            isinstance(v.args[0], ast.Name):
+                        sets[n.targets[0].id] = v.args[0].id
+            in_ann = set()
+            for n in walk(fn):
+                for fld in ('annotation', 'returns'):
+                    a_ = getattr(n, fld, None)
+                    if a_ is not None:
+                        in_ann |= {id(x) for x in ast.walk(a_)}
+            cfg = None
+            for s_ in subs:
+                if id(s_) in in_ann or s_.value.id in fresh or s_.value.id[:1].isupper() or \
+                        s_.slice.id[:1].isupper():
+                    continue
+                # the key: a comprehension / loop variable ranging over a name
+                key = s_.slice.id
+                source = None
+                for n in walk(fn):
+                    if isinstance(n, ast.comprehension) and isinstance(n.target, ast.Name) and \
+                            n.target.id == key and isinstance(n.iter, ast.Name):
+                        source = n.iter.id
+                    if isinstance(n, ast.For) and isinstance(n.target, ast.Name) and n.target.id == key and \
+                            isinstance(n.iter, ast.Name):
+                        source = n.iter.id
+                sites += 1
+                if cfg is None:
+                    cfg = pycfg(fn)
+                sn = cfg.ast_to_node.get(id(s_))
+                ok = False
+                if source is not None and sn is not None:
+                    for cn in cfg.nodes:
+                        e = cn.ast
+                        if cn.kind != 'cond' or not isinstance(e, ast.Compare) or len(e.ops) != 1 or \
+                                not isinstance(e.ops[0], (ast.NotEq, ast.Eq)) or \
+                                not isinstance(e.left, ast.Name) or not isinstance(e.comparators[0], ast.Name):
+                            continue
+                        a_, b_ = e.left.id, e.comparators[0].id
+                        if source not in (sets.get(a_), sets.get(b_)) or a_ not in sets or b_ not in sets:
+                            continue
+                        unequal = isinstance(e.ops[0], ast.NotEq)
+                        bad = [w for (w, lab) in cfg.succ[cn.idx] if lab is unequal]
+                        if cfg.dominates(cn.idx, sn) and sn not in cfg.reachable(bad, skip_back=False):
+                            ok = True
+                ctx.check('%s/%s[%s]' % (q, s_.value.id, key), ok,
+                          '%s: `%s` is read only after the key sets were found equal' % (q, src(s_)),
+                          '%s: `%s` can be evaluated with a key the mapping does not have (no key-set '
+                          'comparison excludes it): on a defaultdict the read inserts default_factory() into '
+                          'the caller\'s tree' % (q, src(s_)), mod.loc(s_))
+    ctx.analysed['computed_key_reads'] = sites
+
+
+MUTATORS = {'append', 'extend', 'pop', 'update', 'sort', 'insert', 'clear', 'setdefault', 'remove',
+            'reverse', 'popitem', 'move_to_end', 'add', 'discard', 'appendleft', 'popleft', 'rotate',
+            'extendleft', '__setitem__', '__delitem__', 'difference_update', 'intersection_update'}
+FRESH_CALLS = {'list', 'dict', 'set', 'tuple', 'OrderedDict', 'collections.OrderedDict', 'deque',
+               'collections.deque', 'defaultdict', 'collections.defaultdict', 'sorted', 'bytearray'}
+
+
+def _is_fresh_value(v):
+    if isinstance(v, (ast.List, ast.Dict, ast.Set, ast.ListComp, ast.DictComp, ast.SetComp)):
+        return True
+    if isinstance(v, ast.Call):
+        if call_name(v) in FRESH_CALLS:
+            return True
+        if isinstance(v.func, ast.Attribute) and v.func.attr in ('copy', 'fromkeys') and not v.args:
+            return True
+    return False
+
+
+def _reaching_bindings(fn, name, use):
+    """(does the value at function entry reach `use`?, [values of the assignments to `name` that
+    reach `use`]) - None when the use is not a node of the function's CFG.  A binding reaches the
+    use if there is a path to it that passes no other binding of the name."""
+    cfg = pycfg(fn)
+    un = cfg.ast_to_node.get(id(use))
+    if un is None:
+        return None
+    defs = {}          # cfg node -> value (None = unknown value: loop target, with-target, ...)
+    for n in walk(fn):
+        v = '-'
+        if isinstance(n, ast.Assign) and any(isinstance(t, ast.Name) and t.id == name for t in n.targets):
+            v = n.value
+        elif isinstance(n, ast.AnnAssign) and isinstance(n.target, ast.Name) and n.target.id == name and \
+                n.value is not None:
+            v = n.value
+        elif isinstance(n, ast.AugAssign) and isinstance(n.target, ast.Name) and n.target.id == name:
+            v = None
+        elif isinstance(n, (ast.For, ast.comprehension)) and \
+                any(isinstance(x, ast.Name) and x.id == name for x in ast.walk(n.target)):
+            v = None
+        elif isinstance(n, ast.With) and any(
+                it.optional_vars is not None and any(isinstance(x, ast.Name) and x.id == name
+                                                     for x in ast.walk(it.optional_vars)) for it in n.items):
+            v = None
+        elif isinstance(n, ast.NamedExpr) and n.target.id == name:
+            v = n.value
+        if v != '-':
+            dn = cfg.ast_to_node.get(id(n))
+            if dn is None and isinstance(n, ast.For):
+                dn = cfg.ast_to_node.get(id(n.target))
+            if dn is None:
+                return None
+            defs[dn] = v
+    others = set(defs)
+    entry_reaches = un in cfg.reachable([cfg.entry.idx], skip_nodes=others - {un}, skip_back=False) \
+        if un not in defs else False
+    vals = []
+    for dn, v in defs.items():
+        starts = [w for (w, lab) in cfg.succ[dn]]
+        if dn == un or un in cfg.reachable(starts, skip_nodes=others - {un}, skip_back=False):
+            if dn != un:
+                vals.append(v)
+    return entry_reaches, vals
+
+
+@rule('A7', floor=8, title='the Python package mutates in place only containers it created itself')
+def a7(ctx):
+    """No optree operation mutates its inputs, Python half: every in-place mutation (a mutating
+    method, a subscript store / delete, an augmented assignment to a subscript) in the package has
+    as receiver a local (or enclosing-function local) that is bound only to fresh containers, the
+    `**kwargs` dictionary of the function itself, `self`, or one of the module's own registries
+    (those writes are G3's).  A parameter, or a name bound to anything else, is the caller's."""
+    pkg = ctx.py()
+    sites = 0
+    for mname in A6_MODULES + ('optree.accessor', 'optree.typing'):
+        mod = pkg.mod(mname)
+        module_globals = {t.id for n in mod.tree.body if isinstance(n, (ast.Assign, ast.AnnAssign))
+                          for t in (n.targets if isinstance(n, ast.Assign) else [n.target])
+                          if isinstance(t, ast.Name)}
+        for q, fn in sorted(mod.funcs.items()):
+            muts = []     # (receiver expression, node, what)
+            for n in walk(fn):
+                if isinstance(n, ast.Call) and isinstance(n.func, ast.Attribute) and n.func.attr in MUTATORS:
+                    muts.append((n.func.value, n, '.%s()' % n.func.attr))
+                elif isinstance(n, (ast.Assign, ast.AugAssign, ast.AnnAssign, ast.Delete)):
+                    tg = n.targets if isinstance(n, (ast.Assign, ast.Delete)) else [n.target]
+                    for t in tg:
+                        for x in ([t] if not isinstance(t, ast.Tuple) else t.elts):
+                            if isinstance(x, ast.Subscript):
+                                muts.append((x.value, n, 'item store'))
+            if not muts:
+                continue
+            # the chain of enclosing functions (closure variables)
+            chain = [fn]
+            parts = q.split('.')
+            for i in range(len(parts) - 1, 0, -1):
+                outer = mod.funcs.get('.'.join(parts[:i]))
+                if outer is not None:
+                    chain.append(outer)
+            for recv, node, what in muts:
+                sites += 1
+                base = recv
+                while isinstance(base, (ast.Attribute, ast.Subscript)):
+                    base = base.value
+                verdict = None
+                if not isinstance(base, ast.Name):
+                    verdict = 'a computed object'
+                elif base.id in ('self', 'cls'):
+                    verdict = None
+                else:
+                    name = base.id
+                    bound = False
+                    for f_ in chain:
+                        pos, var, kwonly, kw = param_names(f_)
+                        if name == kw and recv is base:
+                            bound = True           # the function's own **kwargs: fresh per call
+                            break
+                        is_param = name in pos or name in kwonly or name == var or name == kw
+                        if f_ is fn:
+                            # flow-sensitive in the function itself: which bindings reach the write
+                            r = _reaching_bindings(fn, name, node)
+                            if r is not None:
+                                entry_reaches, vals_r = r
+                                if is_param and entry_reaches:
+                                    verdict = 'the parameter `%s`' % name
+                                    bound = True
+                                    break
+                                if vals_r or is_param:
+                                    bound = True
+                                    if recv is not base:
+                                        verdict = 'something reached from `%s`' % name
+                                    elif not all(v is not None and _is_fresh_value(v) for v in vals_r):
+                                        verdict = '`%s`, which is not bound to a fresh container only' % name
+                                    break
+                                continue
+                        if is_param:
+                            verdict = 'the parameter `%s`' % name
+                            bound = True
+                            break
+                        vals = []
+                        for n in walk(f_):
+                            if isinstance(n, ast.Assign):
+                                for t in n.targets:
+                                    if isinstance(t, ast.Name) and t.id == name:
+                                        vals.append(n.value)
+                            elif isinstance(n, ast.AnnAssign) and isinstance(n.target, ast.Name) and \
+                                    n.target.id == name and n.value is not None:
+                                vals.append(n.value)
+                            elif isinstance(n, (ast.For, ast.comprehension)) and \
+                                    any(isinstance(x, ast.Name) and x.id == name for x in ast.walk(n.target)):
+                                vals.append(None)
+                            elif isinstance(n, (ast.With,)):
+                                for it in n.items:
+                                    if it.optional_vars is not None and any(
+                                            isinstance(x, ast.Name) and x.id == name
+                                            for x in ast.walk(it.optional_vars)):
+                                        vals.append(None)
+                        if vals:
+                            bound = True
+                            if recv is not base:
+                                verdict = 'something reached from `%s`' % name
+                            elif not all(v is not None and _is_fresh_value(v) for v in vals):
+                                verdict = '`%s`, which is not bound to a fresh container only' % name
+                            break
+                    if not bound:
+                        if name in module_globals:
+                            verdict = None      # a registry of the module: G3 / D1 decide those writes
+                        else:
+                            verdict = '`%s`, whose origin is not visible' % name
+                ctx.check('%s/%s%s' % (q, src(recv)[:40], what), verdict is None,
+                          '%s: `%s` %s writes into a container created by this call' % (q, src(recv)[:40], what),
+                          '%s: `%s` %s writes into %s: an in-place change of something the caller owns'
+                          % (q, src(recv)[:40], what, verdict), mod.loc(node))
+    ctx.analysed['python_mutation_sites'] = sites
